@@ -34,8 +34,9 @@ def _check_real(p, cp):
         except Exception as ex:
             return False, "exception %r" % ex, p_norm(p, cp)
     want = p_norm(p, cp)
-    from specs.norm_oracle import norm_slack
-    return (_close(got, want) or abs(got - want) <= norm_slack(p, cp)), got, want
+    # the integral is a well-conditioned function of the breakpoints: the tolerance (1e-9 relative) does not depend on how an
+    # implementation chooses to evaluate it (an earlier version of this check allowed for the cancellation of one closed form)
+    return _close(got, want), got, want
 
 
 def _replay_segment(a):
@@ -148,7 +149,7 @@ def _standin_classes(rep, tier, rng):
                 want = p_norm(p, D.critical_pairs)
                 sig = _classify(p, D.critical_pairs, got)
                 distinct.add(("exact-diff", sig))
-                if not _close(got, want) and abs(got - want) > norm_slack(p, D.critical_pairs):
+                if not _close(got, want):
                     rep.violation("(P-Q).p_norm(%s) = %s but the integral is %s for diagrams %s, %s" % (p, got, want, d1.tolist(), d2.tolist()),
                                   sig, {"input": {"dgm1": d1.tolist(), "dgm2": d2.tolist(), "p": p}, "observed": got, "expected": want,
                                         "call": "(PersLandscapeExact([d1]) - PersLandscapeExact([d2])).p_norm(p)"})
@@ -183,10 +184,33 @@ def _standin_classes(rep, tier, rng):
                 want = p_norm(p, DA.values_to_pairs().tolist())
                 sig = _classify(p, DA.values_to_pairs().tolist(), got)
                 distinct.add(("approx-diff", sig))
-                if not _close(got, want) and abs(got - want) > norm_slack(p, DA.values_to_pairs().tolist()):
+                if not _close(got, want):
                     rep.violation("grid (A1-A2).p_norm(%s) = %s but the integral of the interpolant is %s" % (p, got, want), sig,
                                   {"input": {"dgm1": d1.tolist(), "dgm2": d2.tolist(), "p": p, "grid": [0, 8, 81]}, "observed": got, "expected": want,
                                    "call": "(PersLandscapeApprox([d1],0,8,81) - PersLandscapeApprox([d2],0,8,81)).p_norm(p)"})
+            # norms of landscapes derived from operands whose norms were already taken (any call order): the norm of the result is the
+            # integral of the function the RESULT represents - read from its own grid and values, not through the object's helpers
+            def own_pairs(L):
+                grid = np.linspace(L.start, L.stop, L.num_steps)
+                return [[[float(x), float(y)] for x, y in zip(grid, row)] for row in np.asarray(L.values)]
+            for p in (1, 2, 3):
+                n1 = A1.p_norm(p)
+                A1.sup_norm()
+                c = rng.choice([-2.5, 0.5, 3.0])
+                for nm, L in (("c*A", c * A1), ("A*c", A1 * c), ("A/c", A1 / c), ("-A", -A1), ("A+B", A1 + A2), ("A-B after norms", A1 - A2)):
+                    evals += 1
+                    got = L.p_norm(p)
+                    pairs = own_pairs(L)
+                    want = p_norm(p, pairs)
+                    if not _close(got, want):
+                        rep.violation("grid landscape: (%s).p_norm(%s) = %s after the operand's norm (%s) had been computed, but the integral of the function it represents is %s (c=%s)" % (nm, p, got, n1, want, c),
+                                      "pnorm:derived-after-norm", {"input": {"dgm1": d1.tolist(), "dgm2": d2.tolist(), "p": p, "grid": [0, 8, 81], "operation": nm, "c": c}, "observed": got, "expected": want})
+                        break
+                    gs, ws = float(L.sup_norm()), float(np.max(np.abs(L.values)))
+                    if not _close(gs, ws):
+                        rep.violation("grid landscape: (%s).sup_norm() = %s after the operand's norm had been computed, largest absolute value is %s" % (nm, gs, ws),
+                                      "supnorm:derived-after-norm", {"input": {"dgm1": d1.tolist(), "dgm2": d2.tolist(), "operation": nm, "c": c}, "observed": gs, "expected": ws})
+                        break
             sa = DA.sup_norm()
             if not _close(float(sa), float(np.max(np.abs(DA.values)))):
                 rep.violation("grid sup norm mismatch", "supnorm:grid", {"input": {"dgm1": d1.tolist(), "dgm2": d2.tolist()}, "observed": float(sa)})
